@@ -34,6 +34,12 @@ CLAIMED = {
  'C08': dict(
   text="For six patterns (^a+$, a, ^[ab]$, ^.*b$, ^$, ^a*b+$), every enumerated per-line shape of up to N lines and every value of the key/blank bytes over {a,b,c,space,tab}, Z3 shows on the MIR of LinePatternValidator::validate: a violation iff some trimmed non-blank line is outside the pattern's language (written independently as a formula over the key bytes), exactly one, on the first such line, with the range on the trimmed text.",
   note="Trusted: interpreter, string models, the reference regex matcher mirsym/rexmodel.py (the regex crate is not encoded). Every other pattern is outside the claim."),
+ 'C04': dict(
+  text="Z3 is asked, on every path of the MIR, whether a panic outcome (assert failure, expect/unwrap/unreachable, slice or char-boundary failure) is reachable: in the eleven comment normaliser closures for every comment text up to N bytes that starts with the opener its grammar guarantees (closing delimiters not assumed, plus one multi-byte prefix probe for Markdown), in line_changes + the intersection functions for every diff shape of C01, and in the tag pairing / position arithmetic for the comment sequences of C12. Reachable panics are reported when a file of a language routed to that normaliser crashes the real binary; others are listed as unconfirmed.",
+  note="Rust side only. Outside: tree-sitter and its generated C parsers (crashes, hangs, stack depth), unidiff's text parser, the winnow tag scanner, clap, the OS; non-ASCII text except the one probe; termination is covered only as 'every encoded loop exhausts within the step bound on every path'."),
+ 'C12': dict(
+  text="For every sequence of up to 3-4 comments drawn from templates with 0-2 tag events each (tags on first or later comment lines, end tags also in the `</ block >` spelling), with symbolic comment geometry, the MIR of parse_blocks_from_comments / PartialBlocksIterator::next returns Err exactly when the running depth dips below 0 or ends above 0; and through parse_file / parse_blocks, with a damaged file among two healthy ones in scan and in diff mode and several map orders, the run returns Err whose context names the damaged file.",
+  note="Stubs: the winnow tag scanner (event list per comment), tree-sitter (Comment values), FileSystem / PathChecker / grammar lookup. That a damaged tag in real text yields those events is outside (C05 not applicable)."),
 }
 
 NOT_APPLICABLE = {
@@ -43,7 +49,7 @@ NOT_APPLICABLE = {
 }
 PENDING = "harness not built yet (planned, DESIGN.md section 4)"
 
-FIX_COMMITS = ["7840229", "fe70c83", "d9a5bb3", "c089a2f", "882bf2f", "408e5a1"]
+FIX_COMMITS = ["7840229", "fe70c83", "d9a5bb3", "c089a2f", "882bf2f", "408e5a1", "b3177b8"]
 
 
 def main():
